@@ -9,7 +9,8 @@ import StoneVerif.Model.FeNames
       | `{"null":true}` | `{"ty":T}` (nested built-in reference) | `{"user":bool}` (a resolved user type / alias; the
         flag is `isinstance(·, String)`, false for both)
   reply `{"out":"ok","ty":D,"nullable":b}` | `{"out":"spec","reason":r}` | `{"out":"crash","exc":e}`,
-  plus for the outermost reference `"legal"` (legalRef), `"hole"` (hitsHole), `"crashsite"`.
+  plus for the outermost reference `"legal"` (legalRef), `"hole"` (hitsHole), `"holes"` (the four hole predicates in
+  the order elem-not-type, float-length, falsy-pattern, far-side), `"crashsite"` (hitsListLengthCrash).
   Nested references are resolved first, left to right, positional before keyword (`_resolve_args`); the glue below
   only sequences the calls of `resolveBuiltin`.
 
@@ -161,8 +162,11 @@ def handleParams (j : Json) : Except String Json := do
   let extra ← match ← shallowArgs rx tj with
     | some (pos, kw) => pure [("legal", Json.bool (legalRef rx k pos kw nullable)),
                               ("hole", Json.bool (hitsHole k pos kw)),
+                              ("holes", Json.arr #[Json.bool (holeElemNotType k pos), Json.bool (holeFloatLength k kw),
+                                                   Json.bool (holeFalsyPattern k kw), Json.bool (holeFarSide k kw)]),
                               ("crashsite", Json.bool (hitsListLengthCrash k kw))]
-    | none => pure [("legal", Json.bool false), ("hole", Json.bool false), ("crashsite", Json.bool false)]
+    | none => pure [("legal", Json.bool false), ("hole", Json.bool false), ("crashsite", Json.bool false),
+                    ("holes", Json.arr #[])]
   match ← resolveJson rx tj with
   | .ok r => pure (ok ([("out", Json.str "ok"), ("ty", r.dump), ("nullable", Json.bool r.nullable)] ++ extra))
   | .error (.specerr r) => pure (ok ([("out", Json.str "spec"), ("reason", Json.str (reasonStr r))] ++ extra))
